@@ -8,7 +8,7 @@
 From DV Require Import Base.Prelude Model.NameM Model.MessageM.
 From DV Require Import Proofs.NameOrder Proofs.NameValid Proofs.NameRel Proofs.NameWire Proofs.NameCompress.
 From DV Require Import Proofs.MessageName Proofs.MessageRender Proofs.MessageRead Proofs.MessageRoundtrip Proofs.MessageRoundtrip2.
-From DV Require Import Proofs.MessageRoundtrip3.
+From DV Require Import Proofs.MessageRoundtrip3 Proofs.MessageUpdate.
 Open Scope Z_scope.
 
 Theorem rerender_identical_lemma o m ms rp w m' :
@@ -20,3 +20,44 @@ Proof.
   destruct (render_parse_rerender_lemma o OO m ms rp w WF WT H) as (m2 & HF2 & _ & RR).
   assert (m2 = m') by congruence. subst m2. exact RR.
 Qed.
+
+(* ---------- the statements of Props/C03.v (origin hypothesis first) ---------- *)
+Lemma render_parse_stmt : forall o m max_size request_payload w,
+  org_ok o -> WfMsg o m -> wf_tsig m ->
+  to_wire m o max_size request_payload false 0 = Ok w ->
+  exists m', from_wire w o po0 = Ok m' /\ msg_equiv_t m' m.
+Proof. intros o m ms rp w OO. exact (render_parse_full_lemma o OO m ms rp w). Qed.
+
+Lemma update_forms_roundtrip_stmt : forall o m z max_size request_payload w,
+  org_ok o -> WfUpd o m z -> wf_tsig m ->
+  to_wire m o max_size request_payload false 0 = Ok w ->
+  exists m', from_wire w o po0 = Ok m' /\ msg_equiv_t m' m.
+Proof. intros o m z ms rp w OO. exact (update_roundtrip_lemma o OO m z ms rp w). Qed.
+
+Lemma update_forms_rerender_stmt : forall o m z max_size request_payload w m',
+  org_ok o -> WfUpd o m z -> wf_tsig m ->
+  to_wire m o max_size request_payload false 0 = Ok w -> from_wire w o po0 = Ok m' ->
+  to_wire m' o max_size request_payload false 0 = Ok w.
+Proof. intros o m z ms rp w m' OO. exact (update_rerender_lemma o OO m z ms rp w m'). Qed.
+
+Lemma counts_exact_stmt : forall o m max_size request_payload w,
+  org_ok o -> WfMsg o m -> wf_tsig m -> to_wire m o max_size request_payload false 0 = Ok w ->
+  exists body,
+    w = hdr_bytes (mid m) (mflags m) (zlen (mq m)) (rr_count (man m)) (rr_count (mau m))
+                  (rr_count (mad m) + opt_count (mopt m) + opt_count (mtsig m)) ++ body /\
+    exists m', from_wire w o po0 = Ok m'.
+Proof. intros o m ms rp w OO. exact (counts_exact_lemma o OO m ms rp w). Qed.
+
+Lemma name_write_sound_stmt : forall o n c file t file' t',
+  org_ok o -> TableSound file t -> name_wf o n -> name_to_wire n o c file t = Ok (file', t') ->
+  exists em L L' n',
+    file' = file ++ em /\ TableSound file' t' /\ full_labels n o = Ok L /\ ci_equal L' L /\
+    NameM.from_wire file' (length file) = Ok (L', length em) /\
+    relz o L' = Ok n' /\ ci_equal n' n /\
+    (forall ext endp, (length file' <= endp)%nat -> get_name (file' ++ ext) o endp (length file) = Ok (n', length file')).
+Proof. intros o n c file t file' t' OO. exact (name_write_sound_lemma o OO n c file t file' t'). Qed.
+
+Lemma render_table_sound_stmt : forall o m max_size request_payload r,
+  org_ok o -> WfMsg o m -> mtsig m = None -> to_wire_st m o max_size request_payload false 0 = Ok r ->
+  TableSound (out r) (tbl r).
+Proof. intros o m ms rp r OO. exact (render_table_sound_lemma o OO m ms rp r). Qed.
